@@ -104,30 +104,13 @@ PROPS = {
     ),
     'C05': dict(
         contract_files=['contracts/updates.py'],
-        level='bounded',
-        trusted_base=COMMON_TRUSTED,
-        uncovered=['deductive proof of Module.announceUpdate: attempted, the exploration (value kinds x error states x timestamps) exceeds the'
-                   ' budget (>15 min, 2300+ paths); the contract is evaluated by the bounded stand-in only',
-                   'interleavings of two updating threads; PersistentMixin.loadParameters writing the cache outside announceUpdate'],
-        bounded=[CB('update-contracts', 'contracts/updates.py', 'gens_updates')],
-    ),
-    'C13': dict(
-        contract_files=['contracts/poller.py'],
         level='proof',
-        trusted_base=COMMON_TRUSTED + ['read / poll functions abstract (any result, any Exception)'],
-        uncovered=['the poll thread body (due-time computation, starvation freedom, staleness bounds): timing over unbounded loops is not'
-                   ' under a deductive contract; bounded stand-in in virtual time'],
-        bounded=[CB('poller-contracts', 'contracts/poller.py', 'gens_poller', budget=120)],
-    ),
-    'C15': dict(
-        contract_files=['contracts/poller.py'],
-        level='bounded',
-        trusted_base=COMMON_TRUSTED,
-        uncovered=['start-up order (initModule / startModule / interfaces) and shutdown in reverse order across server, secnode and'
-                   ' modules: a whole-history ordering over several threads, no sequential contract expresses it; only the poll thread'
-                   ' part (configured writes and initial reads of every handled module before the first poll, start-up callback once)'
-                   ' is evaluated by the bounded stand-in'],
-        bounded=[CB('poller-contracts', 'contracts/poller.py', 'gens_poller', budget=120)],
+        trusted_base=COMMON_TRUSTED + ['datatype conversion abstract (some finite float or any Exception); parameter callbacks do not touch the'
+                                       ' parameter nor emit; updateCallback does not raise'],
+        uncovered=['stated domain of the proof: float parameters (other value kinds: bounded stand-in on real modules)',
+                   'interleavings of two updating threads (the contract states that the notification is issued while the update lock is held);'
+                   ' PersistentMixin.loadParameters writing the cache outside announceUpdate'],
+        bounded=[CB('update-contracts', 'contracts/updates.py', 'gens_updates')],
     ),
     'C12': dict(
         contract_files=['contracts/client.py'],
